@@ -26,6 +26,7 @@ class FaultPlan:
         self.n = 0
         self.fired: list[tuple[int, str, object]] = []
         self.log: list[tuple[int, str, object]] = []
+        self.arm_stop = False  # while True an emitter's stop hook is a fault opportunity too
 
     def opportunity(self, kind, key):
         i = self.n
@@ -52,6 +53,10 @@ def make_scripted_emitter(plan: FaultPlan, registry: list | None = None):
 
         def on_thread_start(self):
             plan.opportunity("on_thread_start", self.watch.key)
+
+        def on_thread_stop(self):
+            if plan.arm_stop:
+                plan.opportunity("on_thread_stop", self.watch.key)
 
         def queue_events(self, timeout):
             try:
